@@ -284,6 +284,91 @@ def removal_histories(R, rng, tier):
                             R.fail("derived|survivor-unreadable", "after removing %s the surviving derived attribute %s raises %s" % (victim, c.label, type(e).__name__), None)
 
 
+def shared_expressions(R):
+    """the same expression object used as an attribute of its own and inside larger expressions"""
+    for variant in ('left', 'right', 'both'):
+        d = mk_data()
+        d.remove_component(d.id['c'])
+        x, y = d.id['a'], d.id['b']
+        e = x + 1
+        d['s'] = e
+        if variant == 'left':
+            d['t'] = e * y
+        elif variant == 'right':
+            d['t'] = y * e
+        else:
+            d['t'] = e * (e + y)
+        d['u'] = d.id['s'] - 2
+        before = {c.label: np.asarray(d[c], dtype=float).copy() for c in d.components}
+        d.remove_component(y)
+        left = sorted(c.label for c in d.derived_components)
+        R.count(('shared', variant), 'shared-expression-objects')
+        if left != ['s', 'u']:
+            R.fail("derived|removal-closure|shared-expression-%s" % variant,
+                   "s = x+1 also used inside t (%s operand): removing y leaves derived attributes %s, expected ['s', 'u'] (only t depends on y)" % (variant, left),
+                   "from bounded.c14_derived import replay_shared\nsys.exit(replay_shared(%r))\n" % variant)
+            continue
+        for c in d.derived_components:
+            if not same(np.asarray(d[c], dtype=float), before[c.label]):
+                R.fail("derived|values-after-removal", "values of %s changed after removing an unrelated attribute" % c.label, None)
+
+
+def replay_shared(variant):
+    d = mk_data()
+    d.remove_component(d.id['c'])
+    x, y = d.id['a'], d.id['b']
+    e = x + 1
+    d['s'] = e
+    d['t'] = e * y if variant == 'left' else (y * e if variant == 'right' else e * (e + y))
+    d['u'] = d.id['s'] - 2
+    d.remove_component(y)
+    left = sorted(c.label for c in d.derived_components)
+    print(left)
+    return 0 if left == ['s', 'u'] else 1
+
+
+def nested_parsed(R, views):
+    """a parsed expression over another parsed derived attribute, in both tag orders"""
+    from glue.core.parse import ParsedCommand, ParsedComponentLink
+    from glue.core.component_id import ComponentID
+    for cmd, reffn in (("{inner} + {b}", lambda v: v['a'] * 2 + v['b']), ("{b} + {inner}", lambda v: v['b'] + v['a'] * 2),
+                       ("{inner} * {inner} - {a}", lambda v: (v['a'] * 2) ** 2 - v['a']), ("{inner2} / ({b} + 1)", lambda v: (v['a'] * 2 + 1) / (v['b'] + 1))):
+        d = mk_data()
+        lv = leaves(d)
+        vals = {k: np.asarray(lv[k][1], dtype=float) for k in ('a', 'b')}
+        inner = ParsedComponentLink(ComponentID('inner'), ParsedCommand("{a} * 2", {'a': lv['a'][0]}))
+        d.add_component_link(inner)
+        inner2 = ParsedComponentLink(ComponentID('inner2'), ParsedCommand("{inner} + 1", {'inner': inner.get_to_id()}))
+        d.add_component_link(inner2)
+        refs = {'a': lv['a'][0], 'b': lv['b'][0], 'inner': inner.get_to_id(), 'inner2': inner2.get_to_id()}
+        link = ParsedComponentLink(ComponentID('t'), ParsedCommand(cmd, refs))
+        d.add_component_link(link)
+        cid = link.get_to_id()
+        bad = None
+        try:
+            with np.errstate(all='ignore'):
+                ref = np.broadcast_to(np.asarray(reffn(vals), dtype=float), d.shape)
+                if not same(np.asarray(d[cid]), ref):
+                    bad = ('values', "gives %s, expected %s" % (np.asarray(d[cid]).tolist(), ref.tolist()))
+                else:
+                    for v in views:
+                        try:
+                            exp = ref if v is None else ref[v]
+                        except IndexError:
+                            continue
+                        if np.size(exp) == 0:
+                            continue
+                        got = np.asarray(d[cid, v])
+                        if not same(got, exp):
+                            bad = ('view-values', "with view %r gives %s (shape %r), the full result indexed by the view is %s" % (v, got.tolist(), got.shape, exp.tolist()))
+                            break
+        except Exception as e:
+            bad = ('exception:%s' % type(e).__name__, "raised %s: %s" % (type(e).__name__, e))
+        R.count(('nested-parsed', cmd), 'parsed-commands')
+        if bad:
+            R.fail("derived|parsed-nested|%s" % bad[0], "parsed expression %r over a parsed derived attribute: %s" % (cmd, bad[1]), None)
+
+
 def run(tier, seed, R):
     from bounded.views import view_catalogue
     rng = random.Random(seed)
@@ -319,5 +404,7 @@ def run(tier, seed, R):
                    "r = check_expr(%r, view_catalogue((2, 3), random.Random(%d), small=True))\nprint(r)\nsys.exit(1 if r else 0)\n" % (spec, seed))
     user_functions(R, views)
     parsed_commands(R, views)
+    nested_parsed(R, views)
+    shared_expressions(R)
     removal_histories(R, rng, tier)
     R.samples.append({"expression": "('/', ('+', 'a', 'p1'), ('**', 'w0', '0.5')) on the full dataset and on each view, vs numpy"})
